@@ -299,7 +299,10 @@ def rich_base():
                    rebase_delta=-16,
                    aux={"mt": ("mapping<UUID,uint64_t>", {U(1): 5, U(777): 6})})
     k4 = mk_block("code", 15, offset=1, size=1)
-    b3 = mk_interval(16, address=0, size=2, contents=b"\xff\xfe", blocks=[k4])
+    k6 = mk_block("data", 23, offset=0, size=1)  # referenced by nothing
+    k7 = mk_block("code", 24, offset=0, size=0)  # referenced by nothing
+    b3 = mk_interval(16, address=0, size=2, contents=b"\xff\xfe",
+                     blocks=[k4, k6, k7])
     s3 = mk_section(17, name=".text", flags=[6], intervals=[b3])
     y6 = mk_symbol(18, "main", ("ref", U(15)))
     b3["symexprs"] = {1: {"kind": "const", "offset": 0, "sym1": U(18),
